@@ -493,8 +493,25 @@ class Ctx:
             return None                                  # like(<port member>): default not known here
         return ('const', 0)
 
+    def _mandatory_members(self):
+        """Members that wishbone.Signature declares unconditionally: hasattr(<wishbone interface>, m) is always true for them."""
+        if not hasattr(self, "_mand"):
+            self._mand = frozenset()
+            if self.fi.module.rel.startswith("wishbone"):
+                try:
+                    sig = self.idx.find_class("wishbone/bus:Signature")
+                    self._mand = frozenset(k for k, v in self.idx.members(sig).items() if v and all(not x[2] for x in v))
+                except Exception:
+                    pass
+        return self._mand
+
     def norm(self, e):
         e = ir.norm(e, self.nctx)
+        if ir.contains(e, lambda x: x[0] == 'has') and self._mandatory_members():
+            mand = self._mand
+            e2 = ir.subst(e, lambda x: ('const', True) if x[0] == 'has' and x[2] in mand else None)
+            if e2 != e:
+                e = ir.norm(e2, self.nctx)
         if ir.contains(e, lambda x: x[0] == 'last'):
             e = ir.norm(ir.subst(e, self._last), self.nctx)
         if ir.contains(e, lambda x: x[0] == 'call' and x[1][0] == 'attr' and x[1][2] == 'replicate'):
@@ -1096,6 +1113,16 @@ def refuses(c, cond_texts, exc=None, env=None, loop_values=None):
                 if isinstance(n, ast.comprehension) and isinstance(n.iter, (ast.Set, ast.Tuple, ast.List)) and \
                         sorted(e.value for e in n.iter.elts if isinstance(e, ast.Constant)) == sorted(loop_values):
                     return None, f"the collection {sorted(loop_values)} is traversed by a comprehension (next / any), which the rule does not follow"
+            # the loop may have been unrolled (a literal tuple / a propagated constant table): then every value must be refused on its own
+            results = []
+            for val in sorted(loop_values):
+                e2 = dict(env)
+                e2["v"] = ('const', val)
+                results.append(refuses(c, cond_texts, exc, e2, None))
+            if all(r[0] for r in results):
+                return True, f"one refusal per value of {sorted(loop_values)} (unrolled loop): " + results[0][1]
+            if any(r[0] is None for r in results):
+                return None, next(r[1] for r in results if r[0] is None)
             return False, f"no loop over the literal collection {sorted(loop_values)}"
         env["v"] = elem
     wants = []
